@@ -11,6 +11,7 @@ import Pcore.Proofs.FormatXEmbed
 import Pcore.Generated.FormatLettersX
 import Pcore.Proofs.FormatLat
 import Pcore.Proofs.FormatMergeRefine
+import Pcore.Proofs.FormatXAlt
 /-!
 # C20 — String formatting is total and faithful to the format directive
 
@@ -81,7 +82,10 @@ Full statement / proved / missing
   `C20_x_array_rec` / `C20_x_hash_rec` (structural recursion: what ToString2 writes is arrayAssemble / hashAssemble of the element
   renderings under the element context, alt or not, any key system), `C20_x_array` / `C20_x_hash` / `C20_x_obj` (non-alt: delimiters
   around the separator-joined element renderings; an object instance is its type name and its init hash between `(` and `)`),
-  `C20_x_typ` (a Type is its name and its parameters formatted as an Array under the same map), `C20_x_width_partial` (width reached
+  `C20_x_array_pp` / `C20_x_hash_pp` / `C20_x_obj_pp` (alt mode too: at nesting level L the text is the directly written pretty-printer
+  `ppArray` / `ppHash` / `ppObj` of the element renderings — line break and 2·L blanks when the context indents, one entry per line
+  at level L+1, the closing delimiter on its own line), `C20_x_typ` (a Type is its name and its parameters formatted as an Array under
+  the same map), `C20_x_width_partial` (width reached
   wherever the code applies the string flags: SemVer / URI `s`, Type `s p`).  The full width statement `C20_x_width_full` is FALSE:
   `C20_x_width_fails` (known finding C20-width-ignored: `%20p` of a SemVer, any width on a SemVerRange, Timespan, Timestamp, Sensitive).
 * PER-TYPE MAPS OVER ANY KEY TYPES (`Model/FormatMergeG.lean`: mergeFormats over a key order `KeyOrd` = IsAssignable / Equals / typeRank /
@@ -1008,5 +1012,39 @@ example : MapEq [(.arr, .mk (simpleFmt 'a') (some [(.int, .mk (simpleFmt 'x') no
     [(.base .arr, .mk (simpleFmt 'a') (some [(.base .int, .mk (simpleFmt 'x') none)])), (.base .scalar, .mk (simpleFmt 's') none)] :=
   MapEq.cons _ _ _ _ _ (TreeEq.node _ _ _ (MapEq.cons _ _ _ _ _ (TreeEq.leaf _) MapEq.nil))
     (MapEq.cons _ _ _ _ _ (TreeEq.leaf _) MapEq.nil)
+
+/-! ### alt mode (`#`), one level at a time, every kind of element, any key system -/
+
+/-- **arrays at nesting level `L`, alt or not**: the pretty-printer `ppArray` of the element renderings (elements at level `L + 1`,
+    never the first thing on their level) -/
+theorem C20_x_array_pp {κ : Type} (ks : KeySys κ) (io : FloatIO) (m : GMap κ) (L : Nat) (inh nested : Bool) (vs : List XVal)
+    (texts : List Str) (hl : isArrayLetter (getG ks m (.array vs)).f.letter = true)
+    (hc : ChildrenTextX ks io m (cfOfG ks (getG ks m (.array vs))) ⟨false, (getG ks m (.array vs)).f.alt, L + 1⟩ vs texts) :
+    fmtX ks io m ⟨!nested, inh, L⟩ (.array vs) = .text (ppArray (getG ks m (.array vs)).f L inh nested (partsOf vs texts)) :=
+  fmtX_array_pp ks io m L inh nested vs texts hl hc
+
+/-- **hashes at nesting level `L`, alt or not** (letters h s p): keys and values at level `L + 1`, each the first thing after its
+    indentation -/
+theorem C20_x_hash_pp {κ : Type} (ks : KeySys κ) (io : FloatIO) (m : GMap κ) (L : Nat) (inh nested : Bool) (es : List XEntry)
+    (texts : List (Str × Str)) (hl : isHashLetter (getG ks m (.hash es)).f.letter = true)
+    (hc : EntriesTextX ks io m (cfOfG ks (getG ks m (.hash es))) ⟨true, (getG ks m (.hash es)).f.alt, L + 1⟩ es texts) :
+    fmtX ks io m ⟨!nested, inh, L⟩ (.hash es) = .text (ppHash (getG ks m (.hash es)).f L inh nested texts) :=
+  fmtX_hash_pp ks io m L inh nested es texts hl hc
+
+/-- **object instances at nesting level `L`, alt or not** (`%#p`: letters h s p): a line break and 2·L blanks when the CONTEXT
+    indents and the object is not the first thing on its level, the type name, `(`, in alt mode one `key => value` per line at level
+    `L + 1` and the closing `)` on its own line at level `L` -/
+theorem C20_x_obj_pp {κ : Type} (ks : KeySys κ) (io : FloatIO) (m : GMap κ) (L : Nat) (inh nested : Bool) (name : Str)
+    (es : List XEntry) (texts : List (Str × Str)) (hl : isHashLetter (getG ks m (.obj name es)).f.letter = true)
+    (hc : EntriesTextX ks io m (cfOfG ks (getG ks m (.obj name es))) ⟨true, (getG ks m (.obj name es)).f.alt, L + 1⟩ es texts) :
+    fmtX ks io m ⟨!nested, inh, L⟩ (.obj name es) = .text (ppObj (getG ks m (.obj name es)).f L inh nested name texts) :=
+  fmtX_obj_pp ks io m L inh nested name es texts hl hc
+
+/-- non-vacuity: `%#p` of an object whose attribute holds an array of an object and an integer -/
+example : formatX kindKeys io0 [(.base .obj, .mk { simpleFmt 'p' with alt := true } none), (.base .arr, .mk { simpleFmt 'a' with alt := true } none)]
+    (.obj "My::Pair".toList [.mk (.str ['a']) (.int 1), .mk (.str ['b']) (.array [.obj "My::One".toList [.mk (.str ['v']) (.int 2)], .int 3])]) =
+    .text "My::Pair(\n  'a' => 1,\n  'b' => [\n    My::One(\n      'v' => 2\n    ),\n    3]\n)".toList := by decide +kernel
+example : ppObj { simpleFmt 'p' with alt := true } 1 true true "T".toList [("'k'".toList, "1".toList)] =
+    "\n  T(\n    'k' => 1\n  )".toList := by decide +kernel
 
 end Pcore.Format
